@@ -15,6 +15,7 @@ package main
 import (
 	"fmt"
 	"go/types"
+	"sort"
 	"strings"
 )
 
@@ -26,6 +27,7 @@ type VAwait struct {
 	Results []Value // value, error
 	Typ     types.Type
 	Sym     bool
+	Kinds   map[string]bool
 }
 
 func init() {
@@ -222,7 +224,9 @@ func (x *Exec) coroStore(st *State, fr *Frame, c *callCtx, cmds VSlice, tags Val
 		g := st.ghost.db
 		rec.Post = g.snapshot()
 		g.yields = append(append([]*YieldRec(nil), g.yields...), rec)
-		x.guaranteeObligations(st, c, rec, len(g.yields))
+		if !rec.Batch {
+			x.guaranteeObligations(st, c, rec, len(g.yields))
+		}
 		// submission failure: before the commit (no effect) or after it (effect applied)
 		fail := x.sym.Fresh("store.fails", SBool)
 		ts, fs := x.fork(st, fail, "store submission fails")
@@ -291,14 +295,62 @@ func (x *Exec) coroStore(st *State, fr *Frame, c *callCtx, cmds VSlice, tags Val
 		}
 		step(st, 0, rec, nil)
 	case *VAbsArr:
-		// a batch built in a loop: every element satisfies the slice's element
-		// contract (checked where the slice was filled); the effect is summarised
-		// by the batch contract of the site
+		// concrete prefix (cells 0..k-1 known) followed by a tail of symbolic length:
+		// the prefix is applied command by command, the tail is summarised by a rely step
+		var prefix []Value
+		for k := 0; ; k++ {
+			found := false
+			for _, cell := range arr.Cells {
+				if v, ok := isIntLit(cell.Idx); ok && int(v) == k {
+					prefix = append(prefix, cell.Val)
+					found = true
+					break
+				}
+			}
+			if !found {
+				break
+			}
+		}
+		if len(prefix) > 0 {
+			var stepP func(st *State, i int, rec *YieldRec, results []Value)
+			stepP = func(st *State, i int, rec *YieldRec, results []Value) {
+				if st.dead {
+					return
+				}
+				if i == len(prefix) {
+					g := st.ghost.db
+					mid := g.snapshot()
+					nrec := *rec
+					nrec.Post = mid
+					x.guaranteeObligations(st, c, &nrec, len(g.yields)+1)
+					g.relyStep("rely") // the symbolic tail
+					rec.Batch = true
+					ra := &VAbsArr{Len: cmds.Len, Elem: types.NewPointer(resT), Name: "results"}
+					for k, r := range results {
+						ra.Cells = append(ra.Cells, AbsCell{Idx: IntLit(int64(k)), Val: r})
+					}
+					finishTx(st, rec, nil, ra)
+					return
+				}
+				cv := x.force(st, prefix[i])
+				for _, out := range x.coroCommand(st, c, cv) {
+					if out.st.dead {
+						continue
+					}
+					nr := *rec
+					nr.Cmds = append(append([]*CmdRec(nil), rec.Cmds...), out.rec)
+					stepP(out.st, i+1, &nr, append(append([]Value(nil), results...), out.result))
+				}
+			}
+			stepP(st, 0, rec, nil)
+			return true
+		}
+		// a batch built in a loop: every element was checked where the slice was filled
 		ok := x.coroBatch(st, c, cmds, arr, rec)
 		if !ok || st.dead {
 			return true
 		}
-		finishTx(st, rec, nil, &VAbsArr{Len: cmds.Len, Elem: types.NewPointer(resT), Name: "results"})
+		finishTx(st, rec, nil, x.batchResults(st, cmds, arr, rec))
 	}
 	return true
 }
@@ -359,6 +411,9 @@ func (x *Exec) coroCommand(st *State, c *callCtx, cv Value) []cmdOut {
 		return nil
 	}
 	g.applyCmd(st, ce)
+	if cs.Kind == "UpdateTask" {
+		x.leaseObligation(st, c, ce)
+	}
 	resT := x.taioType("Result")
 	_, payT := structField(resT, cs.resField())
 	fields := map[string]Value{}
@@ -557,25 +612,190 @@ func (x *Exec) coroAwait(st *State, fr *Frame, c *callCtx) bool {
 		return true
 	}
 	g.advanceClock(st)
-	switch a := x.force(st, c.args[1]).(type) {
-	case VAwait:
+	arg := x.force(st, c.args[1])
+	if iv, ok := arg.(VIface); ok {
+		x.oblige(st, "nil-deref", "await of a nil awaitable", Not(iv.Nil), c.common.Pos(), nil)
+		if iv.Nil.IsTrue() {
+			st.dead = true
+			return true
+		}
+		st.assume(Not(iv.Nil))
+		if a, ok := iv.Val.(VAwait); ok {
+			arg = a
+		}
+	}
+	if a, ok := arg.(VAwait); ok {
 		if a.Done {
 			if len(a.Results) == 1 {
 				return x.finish(st, fr, c, a.Results[0])
 			}
 			return x.finish(st, fr, c, VTuple{a.Results})
 		}
+		if a.Sym && len(a.Kinds) == 1 {
+			for k := range a.Kinds {
+				return x.awaitKind(st, fr, c, k)
+			}
+		}
 	}
-	// an awaitable of unknown origin (e.g. read back from a slice filled in a loop)
+	// an awaitable of unknown origin
 	g.relyStep("rely")
 	return x.finish(st, fr, c, x.symbolicResult(st, c))
+}
+
+// awaitKind produces the result of awaiting an awaitable whose origin is known
+// only by kind (it was read back from a slice filled in a loop).
+func (x *Exec) awaitKind(st *State, fr *Frame, c *callCtx, kind string) bool {
+	g := st.ghost.db
+	g.relyStep("rely")
+	complT := x.taioType("Completion")
+	switch {
+	case kind == "sender":
+		fail := x.sym.Fresh("await.sender.fails", SBool)
+		ts, fs := x.fork(st, fail, "awaited sender submission failed")
+		if ts != nil {
+			x.completeCall(ts, c, VTuple{[]Value{VPtr{Nil: TTrue, Typ: types.NewPointer(complT)}, x.freshErr(ts, "aio.err", TFalse)}})
+		}
+		if fs != nil {
+			ok := x.sym.Fresh("await.sender.success", SBool)
+			sc := x.newStruct(fs, x.taioType("SenderCompletion"), map[string]Value{"Success": VScalar{ok}})
+			compl := x.newStruct(fs, complT, map[string]Value{"Kind": VScalar{IntLit(2)}, "Sender": sc})
+			x.completeCall(fs, c, VTuple{[]Value{compl, VIface{Nil: TTrue, Typ: errType()}}})
+		}
+		return true
+	case strings.HasPrefix(kind, "spawn:"):
+		key := strings.TrimPrefix(kind, "spawn:")
+		fn := x.prog.lookupFunc(key)
+		ct := x.prog.contracts.byKey[key]
+		if fn == nil || ct == nil {
+			break
+		}
+		// the child's contract: results are fresh, its ensures are assumed with unknown arguments
+		x.callCounter++
+		var args []Value
+		for i, p := range fn.Params {
+			args = append(args, x.symbolic(st, p.Type(), fmt.Sprintf("await!%d.%s", x.callCounter, p.Name())))
+			_ = i
+		}
+		for _, fv := range fn.FreeVars {
+			args = append(args, x.symbolic(st, fv.Type(), fmt.Sprintf("await!%d.%s", x.callCounter, fv.Name())))
+		}
+		sig := fn.Signature.Results()
+		results := make([]Value, sig.Len())
+		for i := range results {
+			results[i] = x.symbolic(st, sig.At(i).Type(), fmt.Sprintf("await!%d.result%d", x.callCounter, i))
+		}
+		env := x.specEnvFor(st, fn, args, results, nil)
+		x.extendEnv(env, st, fr)
+		env.assume = true
+		for _, cl := range ct.Ensures {
+			if !hasProp(cl.Props, "await") && cl.Props != nil {
+				continue
+			}
+			if strings.Contains(cl.Text, "linearizes") {
+				continue
+			}
+			t, err := env.EvalBool(cl.Text)
+			if err != nil {
+				x.unsupported(st, err.Error())
+				return true
+			}
+			st.assume(t)
+		}
+		x.usedContracts[key] = true
+		return x.finish(st, fr, c, VTuple{results})
+	}
+	return x.finish(st, fr, c, x.symbolicResult(st, c))
+}
+
+func hasProp(ps []string, p string) bool {
+	for _, q := range ps {
+		if q == p {
+			return true
+		}
+	}
+	return false
+}
+
+// batchResults describes the results of a transaction whose command slice has
+// symbolic length. When every command stored into the slice has the same
+// keyed-read kind, each result is the read of some key in the transaction's
+// pre-state; otherwise the results are unconstrained.
+func (x *Exec) batchResults(st *State, cmds VSlice, arr *VAbsArr, rec *YieldRec) *VAbsArr {
+	resT := x.taioType("Result")
+	out := &VAbsArr{Len: cmds.Len, Elem: types.NewPointer(resT), Name: "results"}
+	if len(arr.CmdKinds) != 1 {
+		return out
+	}
+	var kind int64
+	for k := range arr.CmdKinds {
+		kind = k
+	}
+	cs := cmdSpecByKind(x.storeKindName(kind))
+	if cs == nil || cs.Read == nil || cs.Read.Key == "" {
+		return out
+	}
+	rd := cs.Read
+	x.callCounter++
+	name := fmt.Sprintf("batch%s!%d", cs.Kind, x.callCounter)
+	keyF := x.sym.Func(name+".key", []Sort{SInt}, SStr)
+	pre := rec.Pre
+	out.ElemGen = func(s *State, idx Term) Value {
+		sg := s.ghost.db
+		table := sg.schema.Tables[rd.Table]
+		recT := sg.recType(rd.RecType)
+		_, payPT := structField(resT, cs.resField())
+		payT := payPT.(*types.Pointer).Elem()
+		_, recsT := structField(payT, "Records")
+		k := App(SStr, keyF, idx)
+		sg.noteKey(k)
+		row := sg.rowAt(s, pre[rd.Table], k)
+		present := rowPresent(rd.Table, row)
+		// the record list has length 0 or 1 depending on presence; the one possible record is built eagerly
+		recV, err := x.recordFromRowNoAssume(s, recT, table, row, rd.Cols)
+		if err != nil {
+			x.unsupported(s, err.Error())
+			return VPtr{Nil: TTrue, Typ: types.NewPointer(resT)}
+		}
+		n := Ite(present, IntLit(1), IntLit(0))
+		ra := &VAbsArr{Len: n, Elem: types.NewPointer(recT), Name: name + ".records", Cells: []AbsCell{{Idx: IntLit(0), Val: recV}}}
+		obj := x.alloc(s, ra)
+		pay := x.newStruct(s, payT, map[string]Value{"RowsReturned": VScalar{n}, "Records": VSlice{Nil: Not(present), Arr: obj, Len: n, Typ: recsT}})
+		return x.newStruct(s, resT, map[string]Value{"Kind": VScalar{IntLit(kind)}, cs.resField(): pay})
+	}
+	return out
+}
+
+// leaseObligation: see xguar.C07.lease in spec/30_rely.smt2.
+func (x *Exec) leaseObligation(st *State, c *callCtx, ce *cmdEval) {
+	if _, ok := x.prog.spec.sigs["xguar.C07.lease"]; !ok {
+		return
+	}
+	g := st.ghost.db
+	a := ce.effArgs[0] // id pid state counter attempt ttl exp con mask cur
+	id, newstate, mask, cur := a[0], a[2], a[8], a[9]
+	if v, ok := isIntLit(mask); ok && v&4 == 0 {
+		return
+	}
+	var alts []Term
+	for _, y := range g.yields {
+		if y.Kind != "store" || y.Pre["tasks"] == nil {
+			continue
+		}
+		obs := g.rowAt(st, y.Pre["tasks"], id)
+		alts = append(alts, App(SBool, "xguar.C07.lease", obs, y.Now, mask, cur, newstate))
+	}
+	goal := Or(alts...)
+	if len(alts) == 0 {
+		goal = App(SBool, "xguar.C07.lease", Term{"absent.tasks", rowSort("tasks")}, g.now, mask, cur, newstate)
+	}
+	x.oblige(st, "guarantee", "a claimed task is only taken from its holder after its lease or timeout was observed to have run out (xguar.C07.lease)", goal, c.common.Pos(), []string{"C07"})
 }
 
 var guaranteeProps = map[string][]string{"promises": {"C01"}, "callbacks": {"C05"}, "tasks": {"C07"}, "locks": {"C09"}, "schedules": {"C10"}}
 
 // guaranteeObligations: the transaction just applied is a step of the
 // guarantee relation (and keeps the row invariant) for every table it
-// changed, at an arbitrary key.
+// changed, at an arbitrary key; plus the cross-table step properties.
 func (x *Exec) guaranteeObligations(st *State, c *callCtx, rec *YieldRec, idx int) {
 	g := st.ghost.db
 	for _, tn := range g.schema.Order {
@@ -589,7 +809,39 @@ func (x *Exec) guaranteeObligations(st *State, c *callCtx, rec *YieldRec, idx in
 		k0 := x.sym.Named(fmt.Sprintf("g.k0.%s.%d", tn, idx), SStr)
 		a := g.rowAt(st, pre, k0)
 		b := g.rowAt(st, post, k0)
-		goal := App(SBool, "rely."+tn, a, b)
-		x.oblige(st, "guarantee", fmt.Sprintf("transaction is a step of the %s guarantee (rely.%s) at every key", tn, tn), goal, c.common.Pos(), guaranteeProps[tn])
+		// one obligation per named part of the guarantee
+		var parts []string
+		for n := range x.prog.spec.sigs {
+			if strings.HasPrefix(n, "rely."+tn+".") {
+				parts = append(parts, n)
+			}
+		}
+		sort.Strings(parts)
+		if len(parts) == 0 {
+			parts = []string{"rely." + tn}
+		}
+		for _, pn := range parts {
+			x.oblige(st, "guarantee", fmt.Sprintf("transaction is a step of the guarantee %s at every key", pn), App(SBool, pn, a, b), c.common.Pos(), guaranteeProps[tn])
+		}
+	}
+	changed := func(tn string) bool { return rec.Pre[tn] != rec.Post[tn] }
+	// C05: registrations are converted to tasks atomically with the completion of their promise
+	if _, ok := x.prog.spec.sigs["xguar.C05"]; ok && (changed("promises") || changed("callbacks") || changed("tasks")) {
+		k := x.sym.Named(fmt.Sprintf("x.k0.C05.%d", idx), SStr)
+		cb0 := g.rowAt(st, rec.Pre["callbacks"], k)
+		cb1 := g.rowAt(st, rec.Post["callbacks"], k)
+		pk0 := App(SStr, "val", colSel("callbacks", "promise_id", cb0, SOptS))
+		pk1 := App(SStr, "val", colSel("callbacks", "promise_id", cb1, SOptS))
+		goal := App(SBool, "xguar.C05", cb0, cb1, g.rowAt(st, rec.Pre["promises"], pk0), g.rowAt(st, rec.Post["promises"], pk0),
+			g.rowAt(st, rec.Post["promises"], pk1), g.rowAt(st, rec.Pre["tasks"], k), g.rowAt(st, rec.Post["tasks"], k))
+		x.oblige(st, "guarantee", "registrations of a promise that leaves pending become tasks and are removed in the same transaction (xguar.C05)", goal, c.common.Pos(), []string{"C05"})
+	}
+	if _, ok := x.prog.spec.sigs["xguar.C08"]; ok && (changed("promises") || changed("tasks")) {
+		k := x.sym.Named(fmt.Sprintf("x.k0.C08.%d", idx), SStr)
+		t0 := g.rowAt(st, rec.Pre["tasks"], k)
+		t1 := g.rowAt(st, rec.Post["tasks"], k)
+		pk := App(SStr, "val", colSel("tasks", "root_promise_id", t0, SOptS))
+		goal := App(SBool, "xguar.C08", t0, t1, g.rowAt(st, rec.Pre["promises"], pk), g.rowAt(st, rec.Post["promises"], pk))
+		x.oblige(st, "guarantee", "when a promise leaves pending all of its active tasks are completed in the same transaction (xguar.C08)", goal, c.common.Pos(), []string{"C08"})
 	}
 }
